@@ -24,7 +24,7 @@ RULE += ('; also: members declared from the persist() hook or saved manually, an
 ASSUMPTIONS = ['custom loaders are constructible without arguments (the saved state records the loader class)', 'exceptions compare by type and args']
 REQUIRED = ['roundtrips', 'kinds/plain', 'kinds/method', 'kinds/savable', 'kinds/future', 'future_states/pending', 'future_states/result',
             'future_states/exception', 'future_states/exception-falsy', 'future_states/cancelled', 'future_states/result-savable', 'manually_saved', 'hook_declared', 'loader/default', 'loader/global', 'loader/persave', 'loader/unknown', 'loader/ctxreuse',
-            'mutation_probes', 'inherited_checks', 'rebound_name_probes', 'second_saves_same_context', 'refusing_loader_probes', 'global_loader_derived_from_recorded', 'loader/persave-anon', 'registry_loader_probes', 'foreign_method_probes']
+            'mutation_probes', 'inherited_checks', 'rebound_name_probes', 'second_saves_same_context', 'refusing_loader_probes', 'global_loader_derived_from_recorded', 'loader/persave-anon', 'registry_loader_probes', 'foreign_method_probes', 'loaded_before_any_save_of_the_class', 'extended_context_copies']
 BOUNDS = {'quick': '150 shapes x 4 loader modes', 'thorough': '3000 shapes x 4 loader modes'}
 
 PLAIN_VALUES = [1, 's', None, [1, [2, 3]], {'k': [1, 2], 'd': {'e': 5}}, (1, 2), [], {}, ('run', [10, 20], {'depth': 1}), {'t': ([1], 2)}]
@@ -156,8 +156,9 @@ def rand_shape(rng, nest):
 _CLS = {}
 
 
-def build_class(shape):
-    key = repr(shape['levels']) + repr(sorted((k, v[0]) for k, v in shape['members'].items()))
+def build_class(shape, twin=False):
+    # (twin: a second, independent chain of classes of the same shape -- classes no instance of which is ever saved in this interpreter)
+    key = repr(shape['levels']) + repr(sorted((k, v[0]) for k, v in shape['members'].items())) + ('twin' if twin else '')
     if key in _CLS:
         return _CLS[key]
     base = Savable
@@ -389,6 +390,10 @@ def run_case(case):
             loaders.set_object_loader(CountingLoader())
         elif mode in ('persave', 'persave-globalsub'):
             save_ctx = persistence.LoadSaveContext(loader=CountingLoader())
+            if case['i'] % 2:
+                # the caller adds something of its own to the context it was given (a copy with more in it): the loader comes along
+                save_ctx = save_ctx.copyextend(purpose='checkpoint')
+                obs['extended_context_copies'] = 1
         elif mode == 'persave-anon':
             anon = type('SessionLoader', (CountingLoader,), {'__module__': '__main__'})  # (as if defined in an interactive session)
             save_ctx = persistence.LoadSaveContext(loader=anon())
@@ -551,6 +556,21 @@ def run_case(case):
             viol.append(V('wrong-class', 'wrong-class%s' % (':' + mode if mode.startswith('persave-') else ''), 'recreated a %s, expected %s (loader mode %s)' % (type(new).__name__, cls.__name__, mode)))
             return _res(case, viol, obs, kinds)
         compare(shape, new, 'obj', obs, viol, V)
+        if hooked and mode == 'default':
+            # the state is loaded as an object of a class of the same shape none of whose instances was ever saved here (as after a
+            # restart of the interpreter): what the persist() hook declares is restored on the load path as well
+            twin, _tchain = build_class(shape, twin=True)
+            state_twin = copy.deepcopy(state_copy)
+            state_twin[persistence.META][persistence.META__CLASS_NAME] = loaders.get_object_loader().identify_object(twin)
+            obs['loaded_before_any_save_of_the_class'] = 1
+            try:
+                other = Savable.load(state_twin)
+                if type(other) is not twin:
+                    viol.append(V('wrong-class', 'wrong-class:twin', 'recreated a %s, expected %s' % (type(other).__name__, twin.__name__)))
+                else:
+                    compare(shape, other, 'obj(loaded before any save of its class)', obs, viol, V)
+            except BaseException as exc:  # noqa: BLE001
+                viol.append(V('load-raised', 'load-raised:twin:%s' % type(exc).__name__, 'loading into a class that was never saved in this interpreter raised %r' % (exc,)))
         if hooked:
             _ancestor_saves(chain, shape, viol, obs, V, 'after')
         # saved state of the copy equals the original's (taken before the mutation)
